@@ -5,7 +5,9 @@
   run: that is what validates T6's translation rules (I3.Exec.Go) on the current source.
   Core-only; built as the native executable `drivergen`.
 -/
+import I3.Gen.GoKeccak
 import I3.Gen.GoFF
+import I3.Gen.GoKeccak
 import I3.Gen.GoFFG
 import I3.Gen.GoUtils
 import I3.Gen.GoPoseidon
@@ -161,6 +163,8 @@ def genOp (op : String) (pat : String) (args : List String) : Option String := d
     | (_, false) => pure "DIVERGED"
     | ((none, _), true) => pure "nil"
     | ((some r, z), true) => pure (if r == z then toString r else toString r ++ "!receiver-differs")
+  | "keccak.hash", slices => pure (showBytes (keccak256_Hash (← slices.mapM parseBytes?)))
+  | "blake.hash", [b] => pure (showBytes (babyjub_Blake512 (← parseBytes? b)))
   | "u.lebytes", [v] => pure (showBytes (utils_BigIntLEBytes (← parseInt? v)))
   | "u.fromle", [b] => pure (toString (utils_SetBigIntFromLEBytes 0 (← parseBytes? b)).1)
   | "u.swap", [b] => pure (showBytes (utils_SwapEndianness (← parseBytes? b)))
